@@ -639,52 +639,64 @@ func mergedSources(v ssa.Value) []ssa.Value {
 
 func ruleC02R5(c *Ctx) {
 	fn := c.P.Fn(aCollect)
-	nlc := c.callsTo(fn, anchorPred(aNewLeftChan))
-	if len(nlc) != 1 {
-		c.bad("C02.R5", fn, "merge into newLeftoverChannel", fn.Pos(), "expected exactly one newLeftoverChannel call")
+	nlcs := c.callsTo(fn, anchorPred(aNewLeftChan))
+	if len(nlcs) == 0 {
+		c.bad("C02.R5", fn, "merge into newLeftoverChannel", fn.Pos(), "no newLeftoverChannel call")
 		return
 	}
-	srcs := mergedSources(nlc[0].Common().Args[0])
-	c.count("C02.R5:merged sources", len(srcs))
-	has := func(pred func(ssa.Value) bool) bool {
-		for _, s := range srcs {
-			if mentions(s, pred) {
-				return true
-			}
-		}
-		return false
-	}
-	// holders from the session type
 	sessT := fn.Params[0].Type().(*types.Pointer).Elem()
 	st := sessT.Underlying().(*types.Struct)
-	nHold := 0
-	for i := 0; i < st.NumFields(); i++ {
-		k := chunkHolderKind(st.Field(i).Type())
-		if k == "" {
-			continue
-		}
-		fname := fieldName(sessT, i)
-		if k == "recvchan" {
-			c.assumed("C02.R5", fn, "holder "+fname, fn.Pos(), "receive-only input channel: owned by the bufferer, drained by outputFeeder.saveEverything (C01.R7)")
-			continue
-		}
-		nHold++
-		c.check(has(isFieldAddrOf(fname)), "C02.R5", fn, "holder "+fname, nlc[0].Pos(),
-			"the holder's contents flow into the slice given to newLeftoverChannel", "chunks held in "+fname+" are not merged into the leftovers")
-	}
-	c.floor("C02.R5", "chunk-holding fields of clientSession", nHold, 3)
-	// the previous leftovers parameter
 	prev := fn.Params[1]
-	c.check(has(func(v ssa.Value) bool { return v == ssa.Value(prev) }), "C02.R5", fn, "holder parameter "+prev.Name(), nlc[0].Pos(),
-		"unsent leftovers of the previous session are merged", "the previous leftovers parameter is not merged into the new leftovers")
-	// the result returned is the channel built from the merge
+	for i, nlc := range nlcs {
+		tag := ""
+		if len(nlcs) > 1 {
+			tag = fmt.Sprintf(" (merge site %d of %d)", i+1, len(nlcs))
+		}
+		srcs := mergedSources(nlc.Common().Args[0])
+		c.count("C02.R5:merged sources", len(srcs))
+		has := func(pred func(ssa.Value) bool) bool {
+			for _, s := range srcs {
+				if mentions(s, pred) {
+					return true
+				}
+			}
+			return false
+		}
+		// holders from the session type
+		nHold := 0
+		for i := 0; i < st.NumFields(); i++ {
+			k := chunkHolderKind(st.Field(i).Type())
+			if k == "" {
+				continue
+			}
+			fname := fieldName(sessT, i)
+			if k == "recvchan" {
+				c.assumed("C02.R5", fn, "holder "+fname, fn.Pos(), "receive-only input channel: owned by the bufferer, drained by outputFeeder.saveEverything (C01.R7)")
+				continue
+			}
+			nHold++
+			c.check(has(isFieldAddrOf(fname)), "C02.R5", fn, "holder "+fname+tag, nlc.Pos(),
+				"the holder's contents flow into the slice given to newLeftoverChannel", "chunks held in "+fname+" are not merged into the leftovers returned from this site")
+		}
+		c.floor("C02.R5", "chunk-holding fields of clientSession", nHold, 3)
+		// the previous leftovers parameter
+		c.check(has(func(v ssa.Value) bool { return v == ssa.Value(prev) }), "C02.R5", fn, "holder parameter "+prev.Name()+tag, nlc.Pos(),
+			"unsent leftovers of the previous session are merged", "the previous leftovers parameter is not merged into the new leftovers")
+	}
+	// the result returned is a channel built from a merge
 	okRet := true
 	for _, rv := range returnedValues(fn, 0) {
-		if !sameValue(rv.Val, nlc[0].Value()) {
+		one := false
+		for _, nlc := range nlcs {
+			if sameValue(rv.Val, nlc.Value()) {
+				one = true
+			}
+		}
+		if !one {
 			okRet = false
 		}
 	}
-	c.check(okRet, "C02.R5", fn, "returns the merged channel", nlc[0].Pos(), "every return yields the newLeftoverChannel result", "collectLeftovers returns something other than the merged leftovers channel")
+	c.check(okRet, "C02.R5", fn, "returns the merged channel", nlcs[0].Pos(), "every return yields a newLeftoverChannel result", "collectLeftovers returns something other than the merged leftovers channel")
 
 	// acknowledger side: the deferred snapshot covers the pending map and precedes the ended signal
 	ra := c.P.Fn(aRunAcker)
